@@ -100,6 +100,9 @@ class MEDDLY::common_dfs_by_events_mt : public saturation_operation {
     virtual void saturateHelper(unpacked_node& mdd) = 0;
 
   protected:
+    /// Saturate a fired result at the levels it skips, up to level k.
+    node_handle saturateSkipped(node_handle n, int k);
+
     inline ct_entry_key*
     findResult(node_handle a, node_handle b, node_handle &c)
     {
@@ -434,6 +437,25 @@ void MEDDLY::common_dfs_by_events_mt
   delete so;
 }
 
+MEDDLY::node_handle MEDDLY::common_dfs_by_events_mt
+::saturateSkipped(node_handle n, int k)
+{
+  // A result below level k is redundant at the levels in between
+  // (fully-reduced sets); events rooted at those levels must still fire.
+  if (resF->isTerminalNode(n)) return n;
+  for (int lvl = resF->getNodeLevel(n)+1; lvl <= k; lvl++) {
+    if (0 == rel->lengthForLevel(lvl)) continue;
+    const unsigned sz = unsigned(resF->getLevelSize(lvl));
+    unpacked_node* nb = unpacked_node::newWritable(resF, lvl, sz, FULL_ONLY);
+    for (unsigned i=0; i<sz; i++) nb->setFull(i, resF->linkNode(n));
+    resF->unlinkNode(n);
+    saturateHelper(*nb);
+    edge_value ev;
+    resF->createReducedNode(nb, ev, n);
+  }
+  return n;
+}
+
 // ******************************************************************
 // *       common_dfs_by_events_mt::indexq  methods                 *
 // ******************************************************************
@@ -555,7 +577,8 @@ void MEDDLY::forwd_dfs_by_events_mt::saturateHelper(unpacked_node& nb)
         unsigned j = Rp->index(jz);
         if (-1==nb.down(j)) continue;  // nothing can be added to this set
 
-        node_handle rec = recFire(nb.down(i), Rp->down(jz));
+        node_handle rec = saturateSkipped(
+            recFire(nb.down(i), Rp->down(jz)), nb.getLevel()-1);
 
         if (rec == 0) continue;
         if (rec == nb.down(j)) {
@@ -647,7 +670,7 @@ MEDDLY::node_handle MEDDLY::forwd_dfs_by_events_mt::recFire(
     // that's an important special case that we can handle quickly.
 
     for (unsigned i=0; i<rSize; i++) {
-      nb->setFull(i, recFire(A->down(i), mxd));
+      nb->setFull(i, saturateSkipped(recFire(A->down(i), mxd), rLevel-1));
       // nb->d_ref(i) = recFire(A->down(i), mxd);
     }
 
@@ -681,7 +704,8 @@ MEDDLY::node_handle MEDDLY::forwd_dfs_by_events_mt::recFire(
         // ok, there is an i->j "edge".
         // determine new states to be added (recursively)
         // and add them
-        node_handle newstates = recFire(A->down(i), Rp->down(jz));
+        node_handle newstates = saturateSkipped(
+            recFire(A->down(i), Rp->down(jz)), rLevel-1);
         if (0==newstates) continue;
         if (0==nb->down(j)) {
           nb->setFull(j, newstates);
